@@ -29,6 +29,7 @@ var specs = []Spec{
 	{ID: "C06", Level: "exploration", MinDistinct: 50, Engines: []Engine{
 		{Name: "seq", Pkg: "./mon/c06", Procs: 1},
 		{Name: "par", Pkg: "./mon/c06", Race: true, Env: []string{"VERIF_MODE=par"}, DeathSig: "C06/par:process-died"},
+		{Name: "cons", Pkg: "./mon/c06", Env: []string{"VERIF_MODE=cons"}, Par: true, RepeatQuick: 4, RepeatThorough: 16, Instr: []string{"core/hotspot/concurrency_stat_slot.go", "core/hotspot/traffic_shaping.go", "core/hotspot/cache/concurrent_lru.go+sync"}},
 		{Name: "coop", Pkg: "./mon/chainco", Env: []string{"VERIF_PROP=C06"}, Instr: []string{"core/hotspot/concurrency_stat_slot.go", "core/hotspot/traffic_shaping.go"}},
 	}},
 	{ID: "C07", Level: "exploration", MinDistinct: 50, Engines: []Engine{
